@@ -65,6 +65,8 @@ let () =
                       | "branch8" -> Reloc.branch8_target m sh (cz_of_string addr) bs
                       | _ -> None) in
              print_endline (match r with Some t -> string_of_cz t | None -> "none")
+           | ["A64"; pc; w] ->
+             print_endline (match Reloc.a64_site_target (cz_of_string pc) (cz_of_string w) with Some t -> string_of_cz t | None -> "none")
            | ["KNOWN"; abits; base; next; target] ->
              (* the relative field the assembler emits at once when the base is known at init *)
              print_endline (match Reloc.known_rel32 (cz_of_string abits) (cz_of_string base) (cz_of_string next) (cz_of_string target) with
